@@ -38,6 +38,15 @@ def _run_family(job):
     cfg = su.base_config(start=job["start"], step=job["step"], n_steps=job["span"], n_targets=job["nt"],
                          n_sensors=job["ns"], decision=job["policy"], out_step=job["step"] * job["out_every"],
                          seed=job["seed"] + 1)
+    if job.get("two_engines"):
+        import copy as _copy
+        eng = cfg["engines"][0]
+        e2 = _copy.deepcopy(eng)
+        e2["unique_id"] = eng["unique_id"] + 1
+        cut_t, cut_s = max(1, job["nt"] // 2), max(1, job["ns"] // 2)
+        e2["targets"], e2["sensors"] = eng["targets"][cut_t:], eng["sensors"][cut_s:]
+        eng["targets"], eng["sensors"] = eng["targets"][:cut_t], eng["sensors"][:cut_s]
+        cfg["engines"] = [eng, e2]
     out = []
     ref = None
     g = None
@@ -180,6 +189,13 @@ def make_jobs(ctx: Ctx, rng):
                 jobs.append({"policy": pol, "nt": nt, "ns": ns, "seed": seed, "start": "2018-12-01T12:00:00",
                              "step": 60, "nsteps": 3, "span": 3, "out_every": 1 if es % 2 == 0 else 2,
                              "table_env": True, "serendipity": es % 2 == 1, "schedules": schedules})
+    # two engines with disjoint networks (each assessed in turn within a step)
+    for i, pol in enumerate(POLICIES[:3] if ctx.quick else POLICIES):
+        seed = ctx.seed * 333 + i
+        jobs.append({"policy": pol, "nt": 4, "ns": 4, "seed": seed, "start": "2018-12-01T12:00:00", "step": 60, "nsteps": 3,
+                     "span": 3, "out_every": 1 + i % 2, "table_env": True, "serendipity": i % 2 == 0, "two_engines": True,
+                     "schedules": [{"mode": "fifo"}, {"mode": "lifo"}, {"mode": "random", "seed": seed},
+                                   {"mode": "perm", "tag": "asyncExecuteTasking", "perm": [1, 0]}]})
     # fully real geometry, no stubs
     for i in range(2 if ctx.quick else 10):
         pol = POLICIES[i % 4]
